@@ -795,14 +795,16 @@ var mask = rapid.Custom(func(t *rapid.T) net.IPMask {
 var (
 	urlScheme = rapid.SampledFrom([]string{"http", "https", "grpc", "grpcs", "file", "mailto", "a+b.c", "HTTP", "h", "", "1http", "ht tp"})
 	urlUser   = rapid.SampledFrom([]string{"", "user", "user:pass", "user:", ":pass", "u%40x:p%3Aq", "xxxxx:xxxxx", "us er", "é:世", "a:b:c", "%zz"})
-	urlHost   = rapid.SampledFrom([]string{"", "host", "example.com", "EXAMPLE.com", "1.2.3.4", "[::1]", "[fe80::1%25eth0]", "[::1", "host:80", "host:", "[::1]:443", "host:port", "h ost", "é.com", "a%20b", "a%zz"})
-	urlSeg    = rapid.SampledFrom([]string{"", "a", "b", "%2F", "%20", " ", ";", "@", "é", "世", "..", ".", "a b", "%zz", "%", ":", "*", "\\", "\"", "<", ">", "'", "|", "^", "`", "{", "}", " ", "\x7f", "\x00"})
-	urlQ      = rapid.SampledFrom([]string{"", "x=1", "x=1&y=2", "y=<2>", "q=\"a\"", "a='b'", "a=\\", "a=+", "é=世", "a= ", "a=%26", "a=%zz", "&&", "=", "a=b c", "a=#",
+	urlHost   = rapid.SampledFrom([]string{"", "host", "example.com", "EXAMPLE.com", "1.2.3.4", "[::1]", "[fe80::1%25eth0]", "[::1", "host:80", "host:", "[::1]:443", "host:port", "h ost", "é.com", "a%20b", "a%zz",
+		// ports that are all digits but no 16-bit numbers (net/url accepts any digits), zero and zero-padded ports
+		"host:65535", "host:65536", "example.com:99999", "[::1]:100000", "h:0", "h:00080", "h:18446744073709551616"})
+	urlSeg = rapid.SampledFrom([]string{"", "a", "b", "%2F", "%20", " ", ";", "@", "é", "世", "..", ".", "a b", "%zz", "%", ":", "*", "\\", "\"", "<", ">", "'", "|", "^", "`", "{", "}", " ", "\x7f", "\x00"})
+	urlQ   = rapid.SampledFrom([]string{"", "x=1", "x=1&y=2", "y=<2>", "q=\"a\"", "a='b'", "a=\\", "a=+", "é=世", "a= ", "a=%26", "a=%zz", "&&", "=", "a=b c", "a=#",
 		// texts copied out of JSON / JS / HTML sources without decoding, astral and tag characters
 		"next=/a\\u0026b=1", "x=\\u003cb\\u003e", "a=\\\\", "a=\\\"", "q=&amp;", "q=\\n", "t=\U000E0067\U000E007F", "p=\U000F0001", "e=\U0001F600", "n=\u2028"})
 	urlFrag  = rapid.SampledFrom([]string{"", "f", "a b", "%41", "<x>", "\"", "é", "%zz", "a#b"})
 	urlPiece = rapid.OneOf(
-		rapid.SampledFrom([]string{"http", "https", "grpc", "file", "mailto", ":", "//", "/", "?", "#", "@", "user", "pass", "host", "example.com", "[::1]", "[fe80::1%25eth0]", "1.2.3.4", ":80", ":", "%2F", "%20", "%zz", "%", "&", "=", "<", ">", "\"", "'", "\\", " ", "+", ";", "é", "世", " ", "a", "b", "..", ".", "*", "|", "^", "`", "{", "}", "~", "!", "$", ",", "\\u0026", "\\u003c", "\\u003e", "\\\\", "\U000E0067", "\U0010FFFD", "null", "true", "false", "NaN", "0", "-1", "\"\"", "{}", "[]", "undefined"}),
+		rapid.SampledFrom([]string{"http", "https", "grpc", "file", "mailto", ":", "//", "/", "?", "#", "@", "user", "pass", "host", "example.com", "[::1]", "[fe80::1%25eth0]", "1.2.3.4", ":80", ":65536", ":99999", ":0", ":", "%2F", "%20", "%zz", "%", "&", "=", "<", ">", "\"", "'", "\\", " ", "+", ";", "é", "世", " ", "a", "b", "..", ".", "*", "|", "^", "`", "{", "}", "~", "!", "$", ",", "\\u0026", "\\u003c", "\\u003e", "\\\\", "\U000E0067", "\U0010FFFD", "null", "true", "false", "NaN", "0", "-1", "\"\"", "{}", "[]", "undefined"}),
 		rapid.StringN(0, 3, -1),
 	)
 	urlEditAlphabet = []string{":", "/", "?", "#", "@", "%", "&", "<", ">", "\"", "\\", " ", "é", "[", "]", "a"}
